@@ -117,6 +117,13 @@ def real_worker(case):
 def worker(case):
     if case.get("real"):
         return real_worker(case)
+    if case.get("probe_failed"):
+        pf = case["probe_failed"]
+        up = pf.get("update") or {}
+        sig = pf["crash"][0] if pf.get("crash") else "c11:resume-failed:%s:initial-target-%s" % (up.get("stage"), "partial" if case["sc"]["T0"] is not None else "absent")
+        return core.verdict(core.h8([case["sc"]["name"], "probe"]), "violated", [sig], {"evaluations": 1},
+                            detail="the update procedure without any interruption ended rc=%s stage=%s err=%r on scenario %s" % (up.get("rc"), up.get("stage"), up.get("err"), case["sc"]["name"]),
+                            case=case)
     cdir = case["dir"]
     keep = False
     sc = case["sc"]
@@ -263,10 +270,15 @@ class C11(core.Check):
         nsc = 4 if self.quick else 60
         cap = 330 if self.quick else 420
         self.exhaustive = True
-        for si in range(nsc):
+        for si in range(nsc + (1 if self.quick else 6)):
             comp = r.choice([0, 2])
             nch = r.choice([3, 5, 8])
             pieces = [gen.content(r.choice(["random", "text"]), r.randrange(2, 60), r.random()) for _ in range(nch)]
+            big = si >= nsc
+            if big:
+                # chunks larger than the library's 32 KiB scan / copy block: a cut can leave several full blocks of a partial chunk on disk
+                comp = 0 if si % 2 == 0 else 2
+                pieces = [gen.content("random", r.choice([40000, 70000, 100000]), r.random()) for _ in range(3)]
             db = r.randbytes(r.choice([0, 0, 12]))
             B = zckref.make_file(pieces, comp_type=comp, dict_bytes=db, chunk_hash_type=r.randrange(4), hash_type=r.randrange(4))
             pB = zckref.parse(B)
@@ -284,7 +296,7 @@ class C11(core.Check):
                 T0 = bytes(d)[: r.randrange(pB.header_len, len(B) + 1)]
             sc = {"name": "s%d" % si, "A": core.b64(A) if A else None, "B": core.b64(B), "T0": core.b64(T0) if T0 is not None else None,
                   "limit": r.choice([1, 2, 3, -1, 255]), "style": r.choice([0, 1, 4, 32, 36]), "boundary": r.choice(["zckverifBOUNDARY", "a+b(c)"]),
-                  "frag": ["n:1", "n:3", "all", "rand:%d:20" % r.randrange(1 << 20)][si % 4]}
+                  "frag": ["n:1", "n:3", "all", "rand:%d:20" % r.randrange(1 << 20)][si % 4] if not big else r.choice(["n:16384", "n:5000"])}
             if "(" in sc["boundary"]:
                 sc["style"] |= 1
             # fault-free run: count target writes
@@ -301,7 +313,13 @@ class C11(core.Check):
                 if e["cls"] == "target" and e["sys"] == "write":
                     n = e["n"]
             if not up or up["rc"] != 1 or n == 0:
-                raise RuntimeError("fault-free scenario %d did not complete: %s" % (si, up))
+                cs = core.crash_signatures(pr)
+                if not up and not cs:
+                    raise RuntimeError("fault-free scenario %d could not be run: %s" % (si, pr.harness_error))
+                # the uninterrupted procedure itself fails on this (possibly partial) initial target: that already refutes
+                # "restarting on a partially written target converges" - reported through the normal violation path
+                out.append({"sc": sc, "points": [], "zh": ctx["zh"], "nwrites": n, "probe_failed": {"update": up, "crash": cs}})
+                continue
             ks = list(range(1, n + 1))
             if n > cap:
                 self.exhaustive = False
